@@ -159,7 +159,7 @@ func c03Evaluate(ctx *Ctx, root string, cfg wrConfig, before, after map[string]f
 			}
 			est *= float64(occ)
 		}
-		if est > 3e5 || len(p.entries) > 40 {
+		if est > 2e4 || len(p.entries) > 40 {
 			ev.Undecided = append(ev.Undecided, p.rel)
 			continue
 		}
@@ -332,20 +332,26 @@ func c03Report(ctx *Ctx, res *Result, tree map[string]fileState, cfg wrConfig, p
 			"log": es, "old": pp.Old, "new": pp.New, "stdout": firstLines(r.Stdout, 60)}})
 }
 
-// onlyPatterns derives --only arguments from the diagnostics a -f run printed
-// directly before AUTOFIX lines (so that the filtered run still has fixes).
-func onlyPatterns(stdout string) []string {
-	var pats []string
+// onlyPatternsByKind derives --only arguments from the diagnostics a -f run printed
+// directly before AUTOFIX lines (so that the filtered run still has fixes), grouped by
+// diagnostic kind, so that a rare kind (a patch fix with its silent follow-up in distinfo)
+// is drawn as often as the ubiquitous alignment notes.
+func onlyPatternsByKind(stdout string) map[string][]string {
+	pats := map[string][]string{}
 	ds := ParseDiags(stdout)
 	for i, d := range ds {
 		if d.Level == "AUTOFIX" || i+1 >= len(ds) || ds[i+1].Level != "AUTOFIX" {
 			continue
 		}
+		kind := MsgKind(reHexRun.ReplaceAllString(d.Msg, "_"))
+		if strings.Contains(d.Path, "patches/") || strings.Contains(d.Path, "Makefile.common") {
+			pats["@followup "+kind] = []string{"x"}
+		}
 		for _, seg := range strings.Split(MsgKind(d.Msg), "_") {
 			ws := strings.Fields(seg)
 			for k := 0; k+1 < len(ws); k++ {
 				if len(ws[k])+len(ws[k+1]) >= 8 {
-					pats = append(pats, ws[k]+" "+ws[k+1])
+					pats[kind] = append(pats[kind], ws[k]+" "+ws[k+1])
 				}
 			}
 		}
@@ -353,8 +359,41 @@ func onlyPatterns(stdout string) []string {
 	return pats
 }
 
+// pickOnly draws a diagnostic kind, then one of its patterns. Kinds are equally likely,
+// except that kinds that fire on a patch or on a Makefile.common count six times: fixing
+// those files has a silent follow-up fix elsewhere (distinfo hash, "used by" paragraph).
+func pickOnly(r *Rng, byKind map[string][]string) (string, bool) {
+	var ks []string
+	for _, k := range sortedKeys(byKind) {
+		if strings.HasPrefix(k, "@") {
+			continue
+		}
+		w := 1
+		if len(byKind["@followup "+k]) > 0 {
+			w = 6
+		}
+		for i := 0; i < w; i++ {
+			ks = append(ks, k)
+		}
+	}
+	if len(ks) == 0 {
+		return "", false
+	}
+	return Pick(r, byKind[Pick(r, ks)]), true
+}
+
+func onlyPatterns(stdout string) []string {
+	var all []string
+	byKind := onlyPatternsByKind(stdout)
+	for _, k := range sortedKeys(byKind) {
+		if !strings.HasPrefix(k, "@") {
+			all = append(all, byKind[k]...)
+		}
+	}
+	return all
+}
+
 func c03PickConfig(rng *Rng, g *GenTree, fout string) wrConfig {
-	var cfg wrConfig
 	extra := []string{}
 	if rng.Chance(60) {
 		extra = append(extra, "-Wall")
@@ -372,44 +411,22 @@ func c03PickConfig(rng *Rng, g *GenTree, fout string) wrConfig {
 	case 3:
 		extra = append(extra, "-f", "-s")
 	}
-	if rng.Chance(30) {
-		if pats := onlyPatterns(fout); len(pats) > 0 {
-			extra = append(extra, "--only", Pick(rng, pats))
+	if rng.Chance(40) {
+		byKind := onlyPatternsByKind(fout)
+		if p, ok := pickOnly(rng, byKind); ok {
+			extra = append(extra, "--only", p)
 			if rng.Chance(30) {
-				extra = append(extra, "--only", Pick(rng, pats))
+				q, _ := pickOnly(rng, byKind)
+				extra = append(extra, "--only", q)
 			}
 		}
 	}
-	args := append([]string{"-F"}, extra...)
-	// files given on the command line (only these get the executable-bit check)
-	var fileArgs []string
-	for _, f := range g.Files {
-		if st, err := os.Stat(g.Path(f)); err == nil && st.Mode().IsRegular() && strings.HasPrefix(f, "cat/p") && (st.Mode()&0o111 != 0 || rng.Chance(10)) {
-			fileArgs = append(fileArgs, f)
-		}
-	}
-	if len(fileArgs) > 0 && rng.Chance(60) {
-		if rng.Bool() {
-			return wrConfig{Cwd: ".", Args: append(args, fileArgs...)}
-		}
-		return wrConfig{Cwd: ".", Args: append(append(args, fileArgs...), g.Pkgs...)}
-	}
-	switch rng.Intn(5) {
-	case 0, 1:
-		cfg = wrConfig{Cwd: ".", Args: append(args, "-r", ".")}
-	case 2:
-		cfg = wrConfig{Cwd: ".", Args: append(args, g.Pkgs...)}
-	case 3:
-		cfg = wrConfig{Cwd: Pick(rng, g.Pkgs), Args: args}
-	default:
-		cfg = wrConfig{Cwd: "cat", Args: append(args, "-r", ".")}
-	}
-	return cfg
+	return pickTargets(rng, g, append([]string{"-F"}, extra...))
 }
 
 func runC03(ctx *Ctx) *Result {
 	res := &Result{Rule: "U: one case = one random fix script (1-12 operations, every kind, both replace flavours, Save and PLIST-sort events) on a random file of 1-8 logical lines in one of the three modes, run through the real Autofix code and through the extracted model; non-trivial = at least one action was logged, distinct by (mode, only, file, script). " +
-		"W: one case = one pkglint -F run (with -r / --only / -s / -f / -g, from the root, a category or a package directory) on a generated tree; non-trivial = at least one AUTOFIX line was printed; every file that changed or was named in an AUTOFIX line is judged by the extracted `consistent`"}
+		"W: one case = one pkglint -F run (with -r / --only drawn per diagnostic kind / -s / -f / -g; from the root, a category or a package directory; targets: directories, single files, repeated targets, non-clean path spellings) on a generated tree; non-trivial = at least one AUTOFIX line was printed; every file that changed or was named in an AUTOFIX line is judged by the extracted `consistent`"}
 	rng := NewRng(ctx.Seed)
 	c03Unit(ctx, res, rng.Fork())
 	if res.Broken != "" {
